@@ -53,6 +53,9 @@ func modelCheck(prop string, x *Exec, c *Case) ([]Violation, *Result, []*MatchRe
 		}
 		mr := MatchConn(c, cs, t)
 		mrs[i] = mr
+		for st := range mr.States {
+			x.Stats.States[st]++
+		}
 		if !mr.OK {
 			viol = append(viol, Violation{Prop: prop, Rule: mr.Rule, Detail: fmt.Sprintf("conn %d: %s", i, mr.Detail), Sig: mr.Sig})
 		}
@@ -76,6 +79,14 @@ func countKind(cs *connState, k string) int {
 // smallLimit draws a message-size limit. The default (0 => 16 MiB) makes every
 // connection allocate and clear a 16 MiB read buffer (about a millisecond), so
 // it is used for a small share of the runs only.
+// units scales the history length with the tier.
+func units(tier string, n int) int {
+	if tier == "thorough" {
+		return n + 5
+	}
+	return n
+}
+
 func smallLimit(r *Rand) int {
 	if r.Chance(1, 50) {
 		return r.PickInt(0, -1)
@@ -91,7 +102,7 @@ func init() {
 		Components: e1Components, Assumptions: commonAssumptions,
 		Gen: func(r *Rand, tier string) *Case {
 			c := &Case{Server: ServerCfg{Limit: smallLimit(r)}}
-			genHistory(r, c, histOpts{simple: true, errs: true, abuse: true, multi: true, typedNull: false, rich: true, maxUnits: 6, terminate: true})
+			genHistory(r, c, histOpts{simple: true, errs: true, abuse: true, multi: true, typedNull: false, rich: true, maxUnits: units(tier, 6), terminate: true})
 			return c
 		},
 		Check: func(x *Exec, c *Case) ([]Violation, bool) {
@@ -112,7 +123,7 @@ func init() {
 		Components: e1Components, Assumptions: commonAssumptions,
 		Gen: func(r *Rand, tier string) *Case {
 			c := &Case{Server: ServerCfg{Limit: smallLimit(r)}}
-			genHistory(r, c, histOpts{simple: true, extended: true, errs: true, unknown: true, oversized: true, unknownNames: true, closes: true, stray: true, params: true, maxUnits: 8, terminate: true})
+			genHistory(r, c, histOpts{simple: true, extended: true, errs: true, unknown: true, oversized: true, unknownNames: true, closes: true, stray: true, params: true, maxUnits: units(tier, 8), terminate: true})
 			return c
 		},
 		Check: func(x *Exec, c *Case) ([]Violation, bool) {
@@ -135,7 +146,7 @@ func init() {
 		Components: e1Components, Assumptions: commonAssumptions,
 		Gen: func(r *Rand, tier string) *Case {
 			c := &Case{Server: ServerCfg{Limit: smallLimit(r)}}
-			genHistory(r, c, histOpts{simple: true, copy: true, extended: r.Bool(), errs: true, stray: true, maxUnits: 5})
+			genHistory(r, c, histOpts{simple: true, copy: true, extended: r.Bool(), errs: true, stray: true, maxUnits: units(tier, 5)})
 			return c
 		},
 		Check: func(x *Exec, c *Case) ([]Violation, bool) {
@@ -163,11 +174,19 @@ func init() {
 		Rule:       "seeded extended-protocol histories over statements with 0-5 declared parameter types and typed columns: Bind messages with NULL / empty / NUL-containing / multi-KiB values, parameter-format lists of length 0, 1 and n, result-format lists of length 0, 1 and n, and 0-3 other messages (Describe, Parse of other names with long texts, simple queries, stray CopyData) between Bind and Execute; the statement function records count, Value(), Format() and Scan(declared oid) of every parameter; compared with the reference model and the independent codecs, including the RowDescription/DataRow formats of the portal and the ParameterDescription of the statement; non-trivial = a statement function ran with at least one parameter; distinct = distinct case content hashes",
 		Components: e1Components, Assumptions: commonAssumptions,
 		Gen: func(r *Rand, tier string) *Case {
+			if r.Chance(1, 10) {
+				// E2 share: neighbouring connections bind and scan values of the same
+				// OIDs concurrently
+				return genConcurrent(r, r.Range(2, 3), histOpts{extended: true, params: true, binary: true, between: true, maxUnits: 4}, 16384)
+			}
 			c := &Case{Server: ServerCfg{Limit: r.PickInt(4096, 16384, 65536, 65536)}}
-			genHistory(r, c, histOpts{extended: true, simple: r.Chance(1, 4), params: true, binary: true, between: true, bigValues: true, closes: r.Chance(1, 4), maxUnits: 6})
+			genHistory(r, c, histOpts{extended: true, simple: r.Chance(1, 4), params: true, binary: true, between: true, bigValues: true, closes: r.Chance(1, 4), maxUnits: units(tier, 6)})
 			return c
 		},
 		Check: func(x *Exec, c *Case) ([]Violation, bool) {
+			if c.Sched != nil {
+				return checkConcurrent("C08", x, c, 2)
+			}
 			viol, r, _ := modelCheck("C08", x, c)
 			nt := false
 			for _, cs := range r.Conns {
@@ -186,11 +205,19 @@ func init() {
 		Rule:       "seeded sessions whose statements write rows over bool/int2/int4/int8/oid/float4/float8/text/varchar/bytea/uuid/date/timestamp/timestamptz columns with boundary and random values (min/max, +-0, NaN, +-Inf, empty and multi-byte strings, empty and NUL-containing bytea, zero UUID) in the Go representations a handler would use (native values, pointers, pgtype structs), text format (simple protocol) and per-column text/binary result formats (extended protocol), SQL NULL written as untyped nil, typed nil pointer or invalid pgtype value in any position; the same OID is encoded from different Go types in varying order within a connection; every DataRow is decoded by the independent codecs; non-trivial = at least one DataRow was produced and decoded; distinct = distinct case content hashes",
 		Components: e1Components, Assumptions: commonAssumptions,
 		Gen: func(r *Rand, tier string) *Case {
+			if r.Chance(1, 10) {
+				// E2 share: 2-3 connections write rows of different Go types for the
+				// same OIDs under seeded interleavings
+				return genConcurrent(r, r.Range(2, 3), histOpts{simple: true, extended: true, binary: true, rich: true, typedNull: true, multi: true, maxUnits: 4}, 4096)
+			}
 			c := &Case{Server: ServerCfg{Limit: smallLimit(r)}}
-			genHistory(r, c, histOpts{simple: true, extended: true, binary: true, rich: true, typedNull: true, multi: true, abuse: r.Chance(1, 3), maxUnits: 6})
+			genHistory(r, c, histOpts{simple: true, extended: true, binary: true, rich: true, typedNull: true, multi: true, abuse: r.Chance(1, 3), maxUnits: units(tier, 6)})
 			return c
 		},
 		Check: func(x *Exec, c *Case) ([]Violation, bool) {
+			if c.Sched != nil {
+				return checkConcurrent("C09", x, c, 2)
+			}
 			viol, r, _ := modelCheck("C09", x, c)
 			nt := false
 			for _, cs := range r.Conns {
@@ -209,7 +236,7 @@ func init() {
 		Gen: func(r *Rand, tier string) *Case {
 			c := &Case{Server: ServerCfg{Limit: r.PickInt(4096, 5000, 8192, 16384, 65536)}}
 			c.Server.Auth = r.Pick("cleartext", "passthrough", "passthrough")
-			genHistory(r, c, histOpts{simple: true, extended: true, copy: r.Chance(1, 3), params: true, retain: true, sizes: true, bigValues: true, between: true, stray: true, maxUnits: 9})
+			genHistory(r, c, histOpts{simple: true, extended: true, copy: r.Chance(1, 3), params: true, retain: true, sizes: true, bigValues: true, between: true, stray: true, maxUnits: units(tier, 9)})
 			return c
 		},
 		Check: func(x *Exec, c *Case) ([]Violation, bool) {
@@ -232,10 +259,10 @@ func init() {
 		Gen: func(r *Rand, tier string) *Case {
 			if r.Chance(1, 5) {
 				// E2 share: 2-4 connections run such histories over the same names
-				return genConcurrent(r, r.Range(2, 4), histOpts{extended: true, closes: true, params: true, binary: true, unknownNames: true, maxUnits: 6}, 4096)
+				return genConcurrent(r, r.Range(2, 4), histOpts{extended: true, closes: true, params: true, binary: true, unknownNames: true, maxUnits: units(tier, 6)}, 4096)
 			}
 			c := &Case{Server: ServerCfg{Limit: smallLimit(r)}}
-			genHistory(r, c, histOpts{extended: true, closes: true, params: true, binary: true, unknownNames: true, errs: r.Chance(1, 4), maxUnits: 10})
+			genHistory(r, c, histOpts{extended: true, closes: true, params: true, binary: true, unknownNames: true, errs: r.Chance(1, 4), maxUnits: units(tier, 10)})
 			return c
 		},
 		Check: func(x *Exec, c *Case) ([]Violation, bool) {
